@@ -133,6 +133,15 @@ def ev_formula(case, rec):
             continue
         rec.nontriv((tuple(case['trans']), tuple(pt)))
         rec.state(('c7', case['trans'][1]) + tuple(float(v).hex() for v in r[:3]))
+        # the same point as numpy scalars and (where integral) as ints must give the identical answer
+        forms = [tuple(np.float64(v) for v in pt)]
+        if all(float(v).is_integer() for v in pt):
+            forms.append(tuple(int(v) for v in pt))
+        for fpt in forms:
+            stf, rf = rec.call(conform7, fpt[0], fpt[1], fpt[2], t)
+            if stf != 'ok' or tuple(float(v) for v in rf[:3]) != tuple(float(v) for v in r[:3]):
+                rec.fail('conform7 gives a different result for the same point given as %s' % type(fpt[0]).__name__,
+                         site='transform:conform7:input-form', observed=rf, expected=list(r[:3]), case=one, coords=co)
         if r[3] is not None:
             rec.fail('a covariance was returned although none was supplied', site='transform:conform7:vcv-none',
                      observed=r[3], case=one, coords=co)
